@@ -170,6 +170,35 @@ pub fn check_program_entry(
     pre: &[Step],
     entry: Entry,
 ) -> RunVerdict {
+    check_program_hooks(tag, ws, cfg, prog, model, pre, entry).0
+}
+
+/// also returns the hook counters read after the last step
+pub fn check_program_hooks(
+    tag: &str,
+    ws: &mut Workers,
+    cfg: &Config,
+    prog: &Program,
+    model: &PieceResult,
+    pre: &[Step],
+    entry: Entry,
+) -> (RunVerdict, std::collections::BTreeMap<String, i64>) {
+    let mut hooks = std::collections::BTreeMap::new();
+    let v = check_program_inner(tag, ws, cfg, prog, model, pre, entry, &mut hooks);
+    (v, hooks)
+}
+
+#[allow(clippy::too_many_arguments)]
+fn check_program_inner(
+    tag: &str,
+    ws: &mut Workers,
+    cfg: &Config,
+    prog: &Program,
+    model: &PieceResult,
+    pre: &[Step],
+    entry: Entry,
+    hooks_out: &mut std::collections::BTreeMap<String, i64>,
+) -> RunVerdict {
     let mut steps: Vec<Step> = pre.to_vec();
     let src = match entry {
         Entry::Repl => {
@@ -208,6 +237,7 @@ pub fn check_program_entry(
     if r.steps.len() != pre.len() + extra {
         return RunVerdict::Done(Err(Failure::new(format!("{}:prelude-failed", tag), format!("{}\n{:?}", ctxt, st))));
     }
+    *hooks_out = st.hooks.clone();
     let mut res = compare_piece(tag, model, st, &ctxt);
     if res.is_ok() {
         let stale = st.hooks.get("stale_accesses").copied().unwrap_or(0);
